@@ -50,7 +50,8 @@ CHECKS = {
         text="C07_decode_total, C07_unmarshal_total, C07_feature_total, C07_feature_collection_total: for every JSON value the modelled decoders return a value or an error; "
              "C07_point/linestring/polygon/multilinestring/multipoint/multipolygon_roundtrip: for every layout but XYM and any number of positions, decoding the arrays the encoder writes "
              "yields exactly SetCoords of the original coordinates in the original layout (given each number reads back, checked per number by the run); "
-             "C07_xym_comes_back_xyz, C07_empty_default_layout state the format's carve-outs. The run compares Go with the model on geometry / Feature / FeatureCollection "
+             "C07_xym_comes_back_xyz, C07_empty_default_layout(_polygon/_multipoint/_multilinestring/_multipolygon), C07_empty_first_ring_default_layout state the format's carve-outs; "
+             "every theorem holds for every value dl of geojson.DefaultLayout, which the model takes as a parameter. The run compares Go with the model on geometry / Feature / FeatureCollection "
              "round trips and on damaged documents, requires an independent reader to see the same type, nesting and numbers in the emitted JSON, and requires id, bbox, "
              "properties and (null) geometry to survive.",
         note=NOTE_COMMON + "encoding/json's scanner/encoder are trusted; the struct-field matching of encoding/json is validated by the correspondence only.",
